@@ -27,7 +27,7 @@ TESTED_ONLY = {
  'C10': ['complexes differing in a highest-order simplex or a lone point are never equal, as a statement of its own (oracle c10 on mutated copies); copy == source and delete => strictly smaller are proved'],
  'C11': ['flag complexes beyond 4 points; growFlagComplex = rebuild (oracles c11, samefam)'],
  'C12': ['the family for arbitrary point sets in binary64 (oracle c12 with its own metric; the binary64 model itself is compared bit for bit with the code on every run); negative radius and diameter cases beyond the examples'],
- 'C13': ['that every view can be snapshotted (faces born no later than cofaces) for unbounded histories, deletion of the whole star across indices, indices() covering the births, complexes() (shadow-log oracle c13); snapshots being closed complexes is proved'],
+ 'C13': ['indices() / simplicesAddedAtIndex bookkeeping against the births, deletion of the whole star across indices, complexes() as a whole, addSimplexWithBasis on a filtration (shadow-log oracle c13); monotone views, births, views closed under faces and closed snapshots are proved for every history'],
  'C14': ['agreement of listings, counts, Euler characteristic, Betti numbers of the index-aware queries with the snapshot (oracle c14 per query; membership / order / faces of visible simplices are proved); setMinimumIndex / setMaximumIndex'],
  'C15': ['the renaming function of a whole relabel being the user mapping on every name, attributes along it, relabelDisjointFrom renaming only collisions, addSimplicesFrom isomorphism (oracle c15-pre/post); names-only, structure carried and Betti invariance are proved'],
  'C16': ['compatible => accepted, merged attribute values, target complexes (oracle c16); result = union and accepted => compatible are proved for every pair'],
